@@ -101,10 +101,17 @@ class Indentation(afmformats.AFMForceDistance):
             self._rating = None
             # Apply preprocessing
             # (This will call `AFMData.reset_data` on self)
-            details = preproc.apply(apret=self,
-                                    identifiers=preprocessing,
-                                    options=options,
-                                    ret_details=ret_details)
+            try:
+                details = preproc.apply(apret=self,
+                                        identifiers=preprocessing,
+                                        options=options,
+                                        ret_details=ret_details)
+            except BaseException:
+                # A rejected request must not leave partially processed
+                # data behind: no pipeline is stored for the dataset
+                # now, which means "raw data".
+                self.reset_data()
+                raise
             # Set preprocessing options
             fp["preprocessing"] = preprocessing
             fp["preprocessing_options"] = options
